@@ -235,6 +235,7 @@ def run(tier, seed, findings):
             if recover_index(v) != i or recover_offset(v) != o:
                 rec.violation("recover-roundtrip", f"make_recover({i},{o})={v} decodes to {recover_index(v)},{recover_offset(v)}", dict(i=i, o=o))
     mapping_algebra(rec, rnd, 300 if tier == "quick" else 3000)
+    mapping_contracts(rec, rnd, tier)
     return rec.result(
         rule="all step maps with <= N ranges, gaps/sizes <= S (adjacent ranges included), both orientations, every position 0..size+1 and both sides; a case is non-trivial when the map has at least one range; distinct by canonical JSON of (ranges, inverted, pos, assoc)",
         bounds=dict(tier=tier, maps=len(maps)),
@@ -310,3 +311,85 @@ def mapping_algebra(rec, rnd, n):
         cp.append_map(StepMap([0, 0, 1]))
         if len(mp.maps) != len(maps):
             rec.violation("copy-aliases", "appending to a copy changed the original", call)
+
+
+def mapping_contracts(rec, rnd, tier):
+    """Every Mapping method under its sidecar contract, natively, on all small mappings:
+    <= 3 maps drawn from a few step maps, every set of disjoint mirror pairs (index 0
+    included), every slice window.  This is also the fallback when an obligation of one
+    of these functions is undecided."""
+    import itertools
+
+    from prosemirror.transform.map import Mapping, StepMap
+
+    base = [[], [0, 0, 3], [2, 4, 0], [2, 0, 4], [1, 1, 1, 4, 2, 0]]
+    keys = {k: rt.resolve(k)[3] for k in ("Mapping.get_mirror", "Mapping.set_mirror", "Mapping.append_map", "Mapping.append_mapping",
+                                          "Mapping.append_mapping_inverted", "Mapping.invert", "Mapping.slice", "Mapping.copy",
+                                          "Mapping.map", "Mapping.map_result", "Mapping._map")}
+
+    def call(key, args, desc):
+        try:
+            return True, rt.check_call(key, keys[key], args, {})
+        except rt.PreconditionFailed:
+            rec.count("precondition not met (skipped)")
+        except rt.ContractViolation as v:
+            rec.violation(f"contract:{key}:{v.kind}", f"{v.clause} {v.detail}"[:300], desc)
+        except Exception as e:  # noqa: BLE001
+            rec.violation(f"exception:{key}", f"{type(e).__name__}: {e}", desc)
+        return False, None
+
+    def mappings():
+        for n in (0, 1, 2, 3):
+            for combo in itertools.product(range(len(base)), repeat=n):
+                idx = list(range(n))
+                pairings = [[]]
+                for a in idx:
+                    for b in idx:
+                        if a < b:
+                            pairings.append([a, b])
+                if n >= 2:
+                    pairings.append([1, 0])
+                for mir in pairings:
+                    yield [list(base[c]) for c in combo], list(mir)
+
+    all_m = list(mappings())
+    if tier == "quick":
+        rnd.shuffle(all_m)
+        all_m = all_m[:250]
+
+    def build(maps, mir):
+        return Mapping([StepMap(list(r)) for r in maps], list(mir) if mir else None)
+
+    for maps, mir in all_m:
+        d = dict(fn="Mapping", maps=maps, mirror=mir)
+        rec.case(("mapping-contract", json_key(d)), nontrivial=bool(maps), sample=d)
+        m = build(maps, mir)
+        for n in range(len(maps) + 1):
+            call("Mapping.get_mirror", [m, n], dict(d, call=f"get_mirror({n})"))
+        call("Mapping.copy", [m], dict(d, call="copy"))
+        call("Mapping.invert", [build(maps, mir)], dict(d, call="invert"))
+        for f in range(len(maps) + 1):
+            call("Mapping.slice", [m, f, None], dict(d, call=f"slice({f})"))
+        for pos in range(0, 8):
+            for assoc in (-1, 1):
+                call("Mapping.map", [m, pos, assoc], dict(d, call=f"map({pos},{assoc})"))
+                call("Mapping.map_result", [m, pos, assoc], dict(d, call=f"map_result({pos},{assoc})"))
+        # appending this mapping (plain and inverted) to a one-map mapping and to an empty one
+        for outer in ([], [[0, 0, 3]]):
+            o = build(outer, [])
+            call("Mapping.append_mapping", [o, build(maps, mir)], dict(d, call="append_mapping", outer=outer))
+            o = build(outer, [])
+            call("Mapping.append_mapping_inverted", [o, build(maps, mir)], dict(d, call="append_mapping_inverted", outer=outer))
+        o = build(maps, mir)
+        call("Mapping.append_map", [o, StepMap([1, 0, 1]), None], dict(d, call="append_map(None)"))
+        if maps:
+            o = build(maps, [])
+            call("Mapping.append_map", [o, StepMap([1, 0, 1]), 0], dict(d, call="append_map(mirrors=0)"))
+            o = build(maps, [])
+            call("Mapping.set_mirror", [o, 0, len(maps) - 1], dict(d, call="set_mirror"))
+
+
+def json_key(d):
+    import json
+
+    return json.dumps(d, sort_keys=True)
